@@ -255,10 +255,61 @@ def is_param_call(t):
     return None
 
 
+def _norm(p):
+    """`core::`/`alloc::` and `std::` name the same library items depending on
+    where rustc's path printer found them: use `std::` throughout."""
+    if isinstance(p, str):
+        if p.startswith("core::"):
+            return "std::" + p[6:]
+        if p.startswith("alloc::"):
+            return "std::" + p[7:]
+    return p
+
+
+def _normalise_paths(j):
+    def fix_callee(c):
+        if not isinstance(c, dict):
+            return
+        for k in ("path", "trait"):
+            if k in c:
+                c[k] = _norm(c[k])
+        r = c.get("resolved")
+        if isinstance(r, dict) and "path" in r:
+            r["path"] = _norm(r["path"])
+
+    def fix_op(o):
+        if isinstance(o, dict) and o.get("k") == "const" and "fn" in o:
+            fix_callee(o["fn"])
+    for b in j["bodies"]:
+        for blk in b["blocks"]:
+            for s in blk["stmts"]:
+                rv = s.get("rv")
+                if rv:
+                    if "def" in rv:
+                        rv["def"] = _norm(rv["def"])
+                    for k in ("op", "a", "b"):
+                        if k in rv:
+                            fix_op(rv[k])
+                    for o in rv.get("ops", []):
+                        fix_op(o)
+            t = blk["term"]
+            if t["k"] == "call":
+                fix_callee(t.get("callee"))
+                for a in t["args"]:
+                    fix_op(a)
+    for f in j["fns"]:
+        if "impl_trait" in f:
+            f["impl_trait"] = _norm(f["impl_trait"])
+    for i in j["impls"]:
+        if "trait" in i:
+            i["trait"] = _norm(i["trait"])
+
+
 class FactBase:
     def __init__(self, path):
         with open(path) as f:
             self.j = json.load(f)
+        _normalise_paths(self.j)
         self.path = path
         self.crate = self.j["crate"]
         self.nonce = self.j["nonce"]
